@@ -1,1 +1,139 @@
-//! Controls for E-AI (filled in with the abstract interpreter).
+//! Controls for E-AI (C07 and the accept-region rules): each `bad_*` must raise exactly the named
+//! obligation; each `ok_*` twin must be discharged.
+
+/// ASSERT bounds: unguarded index.
+pub fn bad_index(a: &[u8], i: usize) -> u8 {
+    a[i]
+}
+pub fn ok_index(a: &[u8], i: usize) -> u8 {
+    if i < a.len() {
+        a[i]
+    } else {
+        0
+    }
+}
+
+/// ASSERT overflow: arithmetic on an unconstrained parameter.
+pub fn bad_add(x: i64) -> i64 {
+    x + 1
+}
+pub fn ok_add(x: i32) -> i64 {
+    x as i64 + 1
+}
+
+/// ASSERT div by zero.
+pub fn bad_div(x: i64, y: i64) -> i64 {
+    x / y
+}
+
+/// PRE unwrap on a possibly-None value.
+pub fn bad_unwrap(a: &[u8]) -> u8 {
+    *a.first().unwrap()
+}
+pub fn ok_unwrap(a: &[u8]) -> u8 {
+    if a.is_empty() {
+        return 0;
+    }
+    *a.first().unwrap()
+}
+
+/// PRE slice range.
+pub fn bad_range(a: &[u8], n: usize) -> &[u8] {
+    &a[n..]
+}
+pub fn ok_range(a: &[u8], n: usize) -> &[u8] {
+    if n <= a.len() {
+        &a[n..]
+    } else {
+        a
+    }
+}
+
+/// PANIC-CALL reachable.
+pub fn bad_unreachable(x: u8) -> u8 {
+    match x {
+        0..=9 => x,
+        _ => unreachable!(),
+    }
+}
+pub fn ok_unreachable(x: u8) -> u8 {
+    let y = x % 4;
+    match y {
+        0..=3 => y,
+        _ => unreachable!(),
+    }
+}
+
+/// ALLOC: capacity from an attacker-controlled count that was not paid for by input bytes.
+pub fn bad_alloc(input: &[u8]) -> Vec<u32> {
+    let Some((head, _)) = input.split_first_chunk::<4>() else { return Vec::new() };
+    let count = u32::from_be_bytes(*head) as usize;
+    Vec::with_capacity(count)
+}
+pub fn ok_alloc(input: &[u8]) -> Vec<u8> {
+    let Some((head, rest)) = input.split_first_chunk::<4>() else { return Vec::new() };
+    let count = u32::from_be_bytes(*head) as usize;
+    match rest.split_at_checked(count) {
+        Some((block, _)) => {
+            let mut v = Vec::with_capacity(count);
+            for b in block {
+                v.push(*b);
+            }
+            v
+        }
+        None => Vec::new(),
+    }
+}
+
+/// LOOP: no bound.
+pub fn bad_loop(mut x: u64) -> u64 {
+    while x != 1 {
+        x = if x % 2 == 0 { x / 2 } else { x.wrapping_mul(3).wrapping_add(1) };
+    }
+    x
+}
+pub fn ok_loop(a: &[u8]) -> u64 {
+    let mut s = 0u64;
+    let mut i = 0;
+    while i < a.len() {
+        s = s.wrapping_add(a[i] as u64);
+        i += 1;
+    }
+    s
+}
+
+/// REC: recursion.
+pub fn bad_rec(n: u32) -> u32 {
+    if n == 0 {
+        0
+    } else {
+        bad_rec(n - 1)
+    }
+}
+
+/// NARROW: value-changing cast.
+pub fn bad_narrow(x: i64) -> u8 {
+    x as u8
+}
+pub fn ok_narrow(x: i64) -> u8 {
+    (x.rem_euclid(200)) as u8
+}
+
+/// UNMODELLED: an extern callee the model table does not know.
+pub fn bad_unmodelled(a: &mut [u8]) {
+    a.reverse();
+}
+
+/// ACCEPT control: validator with an off-by-one (accepts 13).
+pub fn bad_month(m: u8) -> Result<u8, ()> {
+    if !(1 <= m && m <= 13) {
+        return Err(());
+    }
+    Ok(m)
+}
+pub fn ok_month(m: u8) -> Result<u8, ()> {
+    if !(1 <= m && m <= 12) {
+        return Err(());
+    }
+    Ok(m)
+}
